@@ -18,7 +18,6 @@ import (
 	"strings"
 	"sync"
 	"testing"
-	"time"
 
 	"github.com/tikv/client-go/v2/kv"
 	"github.com/tikv/client-go/v2/verifh/vrep"
@@ -316,9 +315,7 @@ func TestVerifC08Random(t *testing.T) {
 		for i := 0; i < c08Scale(p.n); i++ {
 			fam, i := p.fam, i
 			jobs = append(jobs, c08Job{fmt.Sprintf("random family=%s seq=%d seed=%d", fam, i, vrep.Seed()), func() {
-				t0 := time.Now()
 				x := c08RunSequence(r, fam, i)
-				r.Count("cpu_ms_"+fam, int(time.Since(t0).Milliseconds())) // evidence only, decides nothing
 				if i == 0 && !x.failed {
 					mu.Lock()
 					if samples < 5 {
